@@ -66,15 +66,30 @@ def decode_rows(elem, topo, kind, dim):
     return layout
 
 
+class _Named:
+    def __init__(self, name):
+        self.name = name
+
+
 def check_dofs(ctx, mc, rec, basis=None):
     import skfem
     mesh, kind = mc.mesh, mc.kind
     elem = rec.make()
     if basis is None:
         basis = skfem.CellBasis(mesh, elem)
-    dofs = basis.dofs
-    ed = np.asarray(basis.dofs.element_dofs)
-    N = int(basis.N)
+    if not check_dofs_structure(ctx, mesh, kind, mc.dim, elem, basis.dofs, rec, mc.desc):
+        return basis
+    check_doflocs(ctx, mc, rec, elem, basis)
+    return basis
+
+
+def check_dofs_structure(ctx, mesh, kind, dim, elem, dofs, rec, desc):
+    """Structural oracle on a Dofs object (also attached to Dofs.__init__ under the repository suite)."""
+    class mc:  # minimal stand-in used below
+        pass
+    mc.dim, mc.desc = dim, desc
+    ed = np.asarray(dofs.element_dofs)
+    N = int(dofs.N)
     tag = {"mesh": type(mesh).__name__, "elem": rec.name, "desc": mc.desc}
     mk = lambda what: f"{what}:{rec.name.split('(')[0]}"
 
@@ -89,7 +104,7 @@ def check_dofs(ctx, mc, rec, basis=None):
         raise Skip("1d-facet-dofs")
     ctx.check("row-count", ed.shape == (len(layout), topo.nt), mech=mk("rows"), shape=ed.shape, want=len(layout), **tag)
     if ed.shape != (len(layout), topo.nt):
-        return basis
+        return False
 
     # tables: shapes, pairwise disjoint, cover 0..N-1
     tabs = {"v": np.asarray(dofs.nodal_dofs), "e": np.asarray(dofs.edge_dofs), "f": np.asarray(dofs.facet_dofs),
@@ -162,7 +177,16 @@ def check_dofs(ctx, mc, rec, basis=None):
     shared = any(len({c for c, _ in v}) >= 2 for v in topo.facet_cells.values()) and (counts[0] or counts[1] or counts[2])
     if shared or counts[3]:
         ctx.nontrivial(type(mesh).__name__, rec.name, counts)
+    return True
 
+
+def check_doflocs(ctx, mc, rec, elem, basis):
+    mesh, kind = mc.mesh, mc.kind
+    ed = np.asarray(basis.dofs.element_dofs)
+    counts = (elem.nodal_dofs, elem.edge_dofs if mc.dim == 3 else 0, elem.facet_dofs if mc.dim >= 2 else 0,
+              elem.interior_dofs)
+    tag = {"mesh": type(mesh).__name__, "elem": rec.name, "desc": mc.desc}
+    mk = lambda what: f"{what}:{rec.name.split('(')[0]}"
     # DOF locations, evaluated from every cell (not only the last writer)
     if rec.nodal or rec.name.split("(")[0] in ("ElementTriRT1", "ElementTetRT1", "ElementQuadRT1", "ElementHexRT1",
                                                "ElementTriN1", "ElementTetN1", "ElementQuadN1") or \
@@ -268,6 +292,7 @@ def registry_complete(ctx, k):
     ctx.check("registry-covers-exports", not missing, mech="unregistered-element", missing=missing)
 
 
+SUITE = True   # thorough tier also runs the repository suite with this oracle attached (rv/suite_monitors.py)
 FAMILIES = [Family("gen-" + kd, gen_case(kd), quick=q, thorough=th)
             for kd, q, th in (("line", 10, 160), ("tri", 28, 640), ("quad", 18, 480), ("tet", 14, 320),
                               ("hex", 12, 240), ("wedge", 4, 64))]
